@@ -208,8 +208,10 @@ def base_world(tier, cov_type='polygon'):
     for kind in ('opq', 'rgba', 'pal', 'key'):
         for op in (NONE, 50, 100):
             for cov, clip in (('none', False), ('P', True), ('P', False)):
+                if tier != 'thorough' and kind in ('pal', 'key') and op == 100:
+                    continue            # quick tier: opacity 1 only for the RGB and RGBA kinds
                 add(kind, op, cov, clip)
-                if op == NONE:
+                if op == NONE and (tier == 'thorough' or kind != 'pal'):
                     add(kind, op, cov, clip, suffix='2')
     add('opq', NONE, 'none', False, suffix='v', url=URL2)
     add('rgba', NONE, 'none', False, suffix='v', url=URL2)
@@ -540,21 +542,26 @@ def close(p, q, tol=TOL):
     return all(abs(p[i] - q[i]) * m <= tol * 255 for i in range(3))
 
 
-def px_diff(obs_px, want):
+def px_diff(obs_px, want, tol=TOL):
     """regions where the observed picture differs from `want` (None if equal within the tolerance)"""
     if set(obs_px) != set(want):
         return {'regions': (sorted(obs_px), sorted(want))}
-    d = {r: (tuple(obs_px[r]), tuple(want[r])) for r in sorted(want) if not close(obs_px[r], want[r])}
+    d = {r: (tuple(obs_px[r]), tuple(want[r])) for r in sorted(want) if not close(obs_px[r], want[r], tol)}
     return d or None
 
 
-def judge(obs, exp):
+def tol_of(nsrc):
+    """Compose!TolOf"""
+    return TOL if nsrc <= 4 else TOL + 1
+
+
+def judge(obs, exp, nsrc=1):
     """-> (property_ok, binding_ok, text)"""
     if obs['status'] != 200 or not obs['px']:
         return False, obs['status'] == exp['status'], '; '.join(obs['notes']) or 'no picture'
     if exp['status'] != 200:
-        return not px_diff(obs['px'], exp['full']), False, 'the model of the code answers %s, the service a picture' % exp['status']
-    dfull = px_diff(obs['px'], exp['full'])
+        return not px_diff(obs['px'], exp['full'], tol_of(nsrc)), False, 'the model of the code answers %s, the service a picture' % exp['status']
+    dfull = px_diff(obs['px'], exp['full'], tol_of(nsrc))
     dout = px_diff(obs['px'], exp['out'])
     ups_ok = obs['ups'] == exp['ups']
     notes = list(obs['notes'])
@@ -679,15 +686,16 @@ def compare_cases(ctx, tag, world, defects, cases, tab, obs, findings):
     nbad = 0
     for (names, o), exp, ob in zip(cases, tab, obs):
         ctx.count((tag, tuple(names), opt_key(o)))
-        prop_ok, bind_ok, text = judge(ob, exp)
+        nsrc = sum(len(world.layers[n]['srcs']) for n in names)
+        prop_ok, bind_ok, text = judge(ob, exp, nsrc)
         if prop_ok and bind_ok:
-            if not exp['ok']:
-                raise tlc.MachineryError('python and TLC disagree on Close for %s' % describe(names, o))
+            continue
+        if not prop_ok and bind_ok and exp['ok'] and not px_diff(ob['px'], exp['full'], tol_of(nsrc) + 1):
+            # the model is Full within the tolerance, the answer is the model within the tolerance, but the sum exceeds it
+            ctx.notes.append('rounding edge (answer within %d/255 of the full composition): %s' % (tol_of(nsrc) + 1, describe(names, o)))
             continue
         nbad += 1
         if not prop_ok and bind_ok:
-            if exp['ok']:
-                raise tlc.MachineryError('python and TLC disagree on Close for %s: %s' % (describe(names, o), text))
             failing.append((names, o, exp, text))
         elif not prop_ok:
             shortcut = ([k for k in ('prune', 'combine', 'fast', 'sub', 'blank', 'skip') if k in exp['path']] + ['plain merge'])[0]
@@ -875,11 +883,9 @@ def exhaustive_world(ctx, world, defects, base, shallow, maxstack, machine_shall
         ctx.log('Compose %s (Defects=%s, stacks <= %d over %d layers, <= %d over %d): %r' % (
             world.name, sorted(defects), machine_shallow, len(world.layers), machine_max, len(world.reduced), r))
         if r.violated:
-            a, s = r.trace[-1]
-            st = s['st']
-            findings.add('model invariant %s' % r.violated, [str(L['name']) for L in st['stack']],
-                         mk_opt(st['o']['tr'], st['o']['bg'], [str(z) for z in st['o']['zones']], str(st['o']['res'])),
-                         'TLC counterexample of %s on the model of the code' % r.violated, kind='model')
+            st = r.trace[-1][1]['st'] if r.trace else {}
+            raise tlc.MachineryError('Compose.tla %s: invariant %s violated on the model (Defects=%s) for %s %s' % (
+                world.name, r.violated, sorted(defects), [str(L['name']) for L in st.get('stack', ())], st.get('o')))
         elif not r.ok:
             raise tlc.MachineryError('Compose.tla %s: %r\n%s' % (world.name, r, r.out[-1500:]))
         else:
@@ -948,7 +954,10 @@ def run(ctx):
     sensitivity_of_model(ctx, world)
 
     if thorough:
-        exhaustive_world(ctx, world, defects, base, 2, 4, 2, 4, procs)
+        # all pairs over the catalogue and all triples over the larger reduced catalogue; 4-stacks over a smaller one
+        exhaustive_world(ctx, world, defects, base, 2, 3, 2, 3, procs)
+        deep = World('base-polygon-deep', world.layers, world.cov_type, world.reduced[:10])
+        exhaustive_world(ctx, deep, defects, base, 1, 4, 1, 4, procs)
         exhaustive_world(ctx, wb, defects, base, 2, 3, 2, 3, procs)
     else:
         exhaustive_world(ctx, world, defects, base, 2, 3, 1, 3, procs)
@@ -986,7 +995,7 @@ def replay(ctx, data):
     ob = run_real(world, [(names, o)], base, procs=1)[0]
     # the model needs the catalogue only through the names of the case
     exp = expected_table(ctx, 'replay', world, [(names, o)], case.get('defects', []))[0]
-    prop_ok, bind_ok, text = judge(ob, exp)
+    prop_ok, bind_ok, text = judge(ob, exp, sum(len(world.layers[n]['srcs']) for n in names))
     print('replay %s on world %s' % (describe(names, o), world.name))
     print('  upstream (real):  %s' % [(','.join(u['ls']), u['tr'], u['sub']) for u in ob['ups']])
     print('  upstream (model): %s' % [(','.join(u['ls']), u['tr'], u['sub']) for u in exp['ups']])
